@@ -136,6 +136,19 @@ class Oracle:
         lst[:] = [items[j] for j in perm]
 
 
+    def sample(self, population, k):
+        """k distinct elements: modelled as a shuffle of the index list followed by a prefix"""
+        idx = list(range(len(population)))
+        self.shuffle(idx)
+        return [population[i] for i in idx[:k]]
+
+    def choices(self, population, weights=None, *, cum_weights=None, k=1):
+        return [self.choice(population) for _ in range(k)]
+
+    def getrandbits(self, n):
+        return self.randrange(1 << n) if n else 0
+
+
 class Recorder:
     """wraps a real random.Random and records every answer in Oracle-replayable form"""
 
@@ -174,6 +187,68 @@ class Recorder:
         self.log.append(("shuffle", list(tagged)))
         items = list(lst)
         lst[:] = [items[j] for j in tagged]
+
+
+    def sample(self, population, k):
+        idx = list(range(len(population)))
+        self.shuffle(idx)
+        return [population[i] for i in idx[:k]]
+
+    def choices(self, population, weights=None, *, cum_weights=None, k=1):
+        return [self.choice(population) for _ in range(k)]
+
+    def getrandbits(self, n):
+        return self.randrange(1 << n) if n else 0
+
+
+# ---- owning the module-level API of `random` ------------------------------------------------------
+# The code under test may reach randomness as `random.randint(...)` (module attribute looked up at call time)
+# or through names bound at import time (`from random import randint`).  install() replaces the public
+# functions of the `random` module by dispatchers to the current oracle and reloads the given modules, so
+# both spellings end up at the oracle.  Outside an execution the dispatchers fall through to the originals.
+
+_CURRENT = [None]
+_ORIG = {}
+_API = ("randint", "randrange", "random", "uniform", "choice", "shuffle", "sample", "choices", "getrandbits")
+
+
+def _dispatcher(name):
+    def call(*a, **kw):
+        cur = _CURRENT[0]
+        if cur is None:
+            return _ORIG[name](*a, **kw)
+        return getattr(cur, name)(*a, **kw)
+
+    call.__name__ = name
+    return call
+
+
+def install(*modules):
+    import importlib
+    import random as _r
+
+    if not _ORIG:
+        for name in _API:
+            _ORIG[name] = getattr(_r, name)
+            setattr(_r, name, _dispatcher(name))
+        for m in modules:
+            importlib.reload(m)
+
+
+class owned:
+    """with owned(oracle): ...   - every call into the random API goes to `oracle`"""
+
+    def __init__(self, oracle):
+        self.oracle = oracle
+
+    def __enter__(self):
+        self.prev = _CURRENT[0]
+        _CURRENT[0] = self.oracle
+        return self.oracle
+
+    def __exit__(self, *exc):
+        _CURRENT[0] = self.prev
+        return False
 
 
 def explore(execute, bound, cap=None):
